@@ -339,6 +339,10 @@ def body_wap_headers(an: int, sep: int, av: int, pr: int, order: bool, blank_fir
         p2.headerslurp()
         hx.require(rf.i == nblock, "C02:headers-slurped-twice", lambda: "second protocol object read %d more lines" % (rf.i - nblock))
         hx.require(p2.httpheaders == p.httpheaders, "C02:header-cache-differs", lambda: "%r vs %r" % (p2.httpheaders, p.httpheaders))
+        # a later, different connection (no WAP headers at all) is judged by its own header block only
+        rh3 = hx.make_rh(False)
+        p3 = wap.WAPProtocol(req, hx.make_server(cfg), rh3, hx.LineReader(["Host: x\r\n", "\r\n"]), hx.ListWriter(), cfg)
+        hx.require(not p3.canhandlerequest(), "C02:detection-depends-on-earlier-connection", lambda: "after headers %r a header-less connection was claimed by WAP" % (lines,))
     else:
         hx.require(rf.i == 0, "C02:headers-read-for-prefixed-request", lambda: "read %d lines" % rf.i)
     return True
